@@ -122,7 +122,7 @@ CHECKS = {
         note="Trusted: TLC, hashlib as the reference digest, open()/hashlib.new() observation wrappers.",
         design="4 C16"),
     "C20": dict(
-        technique="TLA+ configuration spec ComposeLayout.tla (directory layouts, probing precedence, accessor results): TLC enumerates every configuration; each is materialised on disk and opened by the real Compose; ComposeAccess.tla (accessors as a state machine: access / edit / file replaced, corrupted, removed / metadata appearing elsewhere): TLC model check of LoadedOnce, OnlyAccessFills, ServesDocumentStep, FirstAccessIsDirectLoad, Frame, three deviations refuted, every generated history replayed on one real Compose object",
+        technique="TLA+ configuration spec ComposeLayout.tla (directory layouts, probing precedence, accessor results): TLC enumerates every configuration; each is materialised on disk and opened by the real Compose; ComposeAccess.tla (accessors as a state machine: access / edit / file replaced, corrupted, removed / metadata appearing elsewhere): TLC model check of LoadedOnce, OnlyAccessFills, ServesDocumentStep, FirstAccessIsDirectLoad, Frame, three deviations refuted, every generated history replayed on one real Compose object, random executions of the real object validated by TLC against Trace_ComposeAccess.tla; inductive invariant for unbounded content numbers discharged by Apalache (Apa_ComposeAccess.tla)",
         text="TLC enumerates ~4k (quick) / ~9k configurations: states of the path, compose/, two legacy sub-directories x manifest file names "
              "(current, legacy, both, none) x content (valid, valid-empty, not JSON, empty, other format) x undecodable composeinfo x trailing "
              "slash, checks Prefers/Exists on the model and emits the allowed resolution set and each accessor's expected result; the real "
